@@ -46,6 +46,9 @@ pub const SNIPPETS: &[Snippet] = &[
     s("gl:param-shadow", "local a# = @A\nlocal b# = function(a#) return a# end\nlocal c# = @B\nemit(a#, b#(5), c#)"),
     s("gl:param-shadow-then-read", "local a# = @A\nlocal f#, i# = function(a#) return a# end, a#\nemit(f#(5), i#)\nlocal b# = get1()\nlocal t# = {function(b#, c) return b# end, b#}\nemit(t#[1](6), t#[2])\nlocal c# = @B\nlocal function pick#(g, v) return g(v) + v end\nlocal d# = pick#(function(c#) return c# + 1 end, c#)\nemit(d#)"),
     s("gl:param-shadow-nested-read", "local a# = @A\nlocal g# = function() local h = function(a#) return a# end return h(1) + a# end\nemit(g#())\nlocal x#, y# = @B, @C\nlocal k#, r# = function(y#) return y# end, x# + y#\nemit(k#(1), r#)"),
+    s("gl:valueless-then-capture", "local a#\nlocal f# = function() return a# end\na# = @A\nemit(f#())\nlocal b#, c#\nlocal g#, h# = function() return b# end, function(v) c# = v end\nb# = @B\nh#(@C)\nemit(g#(), c#)"),
+    s("gl:valueless-then-read", "local a#\nlocal s# = a#\nlocal t#, u# = a#, @A\nemit(a#, s#, t#, u#)\nlocal p#, q#\nlocal r# = {p#, q#, @B}\nemit(#r#, r#[3])"),
+    s("gl:valueless-shadow-read", "local v# = @A\ndo\n  local v#\n  local s# = v#\n  emit(s#)\nend\nlocal w# = @B\nlocal function sh#()\n  local w#\n  local k# = function() return w# end\n  w# = @C\n  return k#()\nend\nemit(sh#(), v#, w#)"),
     s("gl:field-name", "local a# = @A\nlocal b# = {a# = @B}\nlocal c# = b#.a#\nlocal d# = @C\nemit(a#, c#, d#)"),
     s("gl:table-values", "local t# = {x = @A}\nlocal u# = {y = @B, z = get1()}\nlocal v# = u#.y + t#.x\nemit(t#.x, u#.y, u#.z, v#)"),
     s("gl:nested-blocks", "local a# = @A\nlocal b# = @B\nif flag1() then\n  local c# = get1()\n  local d# = get2()\n  emit(c#, d#)\nelse\n  local e# = @C\n  local f# = e#\n  emit(e#, f#)\nend\nemit(a#, b#)"),
@@ -87,7 +90,7 @@ pub const SNIPPETS: &[Snippet] = &[
     s("mc:strings", "local s# = 'abc'\nemit(('abc'):upper(), ('x'):rep(3), ('hello'):sub(2, 3), s#:upper(), s#:len(), (s#):byte())"),
     s("mc:shadowed", "local o# = {name = 'outer'}\nfunction o#:who() return self.name end\ndo\n  local o# = {name = 'inner', who = o#.who}\n  emit(o#:who())\nend\nlocal function f#(o#) return o#:who() end\nemit(o#:who(), f#({name = 'param', who = o#.who}))"),
     s("mc:effects", "local o# = {v = @A}\nfunction o#:get(d) return self.v + d end\nlocal function mk#() emit('mk') return o# end\nlocal box# = {o = o#}\nemit(mk#():get(1), box#.o:get(2), box#['o']:get(3), (mk#()):get(4), ((o#)):get(5))"),
-    s("mc:double-paren", "local o# = {v = @A}\nfunction o#:get(d) return self.v + d end\nlocal function mk#() emit('mk') return o# end\nlocal box# = {o#}\nlocal function key#() emit('key') return 1 end\nemit(((mk#())):get(1), ((box#[key#()])):get(2), (((o#))):get(3), ((mk#())):get(get1()))\n((mk#())):get(4)"),
+    s("mc:double-paren", "local o# = {v = @A}\nfunction o#:get(d) return self.v + d end\nlocal function mk#() emit('mk') return o# end\nlocal box# = {o#}\nlocal function key#() emit('key') return 1 end\nemit(((mk#())):get(1), ((box#[key#()])):get(2), (((o#))):get(3), ((mk#())):get(get1()))\ndo ((mk#())):get(4) end"),
     s("mc:receiver-effects", "local o# = {v = @A}\nfunction o#:get(d) return self.v + (d or 0) end\nlocal function mk#() emit('mk') return o# end\nlocal function key#() emit('key') return 'o' end\nlocal function sfx#() emit('sfx') return 'x' end\nlocal box# = setmetatable({}, {__index = function(t, k) emit('index', k) return o# end})\nlocal neg# = setmetatable({}, {__unm = function(a) emit('unm') return o# end, __concat = function(a, b) emit('concat') return 'cc' end})\nemit((box#[key#()]):get(1), (box#.o):get(2), (mk#() or o#):get(3), (flag1() and o# or mk#()):get(4), ('a' .. sfx#()):upper(), ({get = o#.get, v = get1()}):get(5), (-neg#):get(6), (neg# .. 'y'):upper())\ndo (box#[key#()]):get(7) end\nlocal function va#(...) return (...):get(8), (mk#()):get(9) end\nemit(va#(o#, 1))"),
     s("mc:args", "local o# = {}\nfunction o#.s(self, str) return #str end\nfunction o#.t(self, tb) return #tb end\nfunction o#.va(self, ...) return select('#', ...) end\nlocal function w#(...) return o#:va(...) end\nemit(o#:s'abc', o#:t{1, 2, 3}, o#:va(get1(), get2()), w#(1, 2, 3), o#:va((w#())))"),
     s("mc:index-handler", "local proto# = {hello = function(self, x) emit(self ~= nil, x) return x end}\nlocal p# = setmetatable({}, {__index = function(t, k) emit('index', k) return proto#[k] end})\nemit(p#:hello(1))\np#:hello(2)"),
@@ -154,6 +157,114 @@ fn indent(text: &str) -> String {
     text.lines().map(|l| format!("  {}", l)).collect::<Vec<_>>().join("\n")
 }
 
+/// Two consecutive `local` declarations, every combination of
+/// * value counts of each (none, fewer than names, equal, more, a multi-value call last) and
+/// * how the second initialiser relates to the names of the first (independent, reads, reads the second
+///   name, captures in a closure, writes through a closure, re-declares the same name, reads inside a table),
+/// followed by an assignment to the first name (closures observe it) and `emit` of everything.
+pub fn gl_matrix(rng: &mut Rng, id: usize) -> String {
+    let n1 = 1 + rng.below(2);
+    let n2 = 1 + rng.below(2);
+    let a = format!("a{}", id);
+    let b = format!("b{}", id);
+    let first_names: Vec<String> = if n1 == 1 { vec![a.clone()] } else { vec![a.clone(), b.clone()] };
+    let mut out = String::new();
+    out.push_str(&format!("local function two{}() emit('two') return 7, 8 end\n", id));
+    // values of a declaration with `n` names: (text after the names, "" for none)
+    let values = |rng: &mut Rng, n: usize, lead: Option<String>, id: usize| -> String {
+        let atom = |rng: &mut Rng| -> String {
+            match rng.below(3) {
+                0 => rng.range(0, 9).to_string(),
+                1 => "get1()".to_owned(),
+                _ => "get2()".to_owned(),
+            }
+        };
+        let kind = rng.below(5);
+        let mut vals: Vec<String> = Vec::new();
+        let count = match kind {
+            0 => 0,
+            1 => n.saturating_sub(1),
+            2 => n,
+            3 => n + 1,
+            _ => n, // multi-value call last
+        };
+        for _ in 0..count {
+            vals.push(atom(rng));
+        }
+        if kind == 4 {
+            let last = vals.len() - 1;
+            vals[last] = format!("two{}()", id);
+        }
+        if let Some(l) = lead {
+            if vals.is_empty() {
+                vals.push(l);
+            } else {
+                vals[0] = l;
+            }
+        }
+        if vals.is_empty() { String::new() } else { format!(" = {}", vals.join(", ")) }
+    };
+    out.push_str(&format!("local {}{}\n", first_names.join(", "), values(rng, n1, None, id)));
+    // the second declaration
+    let c = format!("c{}", id);
+    let d = format!("d{}", id);
+    let relation = rng.below(8);
+    let mut closure_getters: Vec<String> = Vec::new();
+    let mut second_names: Vec<String> = if n2 == 1 { vec![c.clone()] } else { vec![c.clone(), d.clone()] };
+    let lead: Option<String> = match relation {
+        0 => None,
+        1 => Some(a.clone()),
+        2 => Some(if n1 == 2 { b.clone() } else { a.clone() }),
+        3 => {
+            closure_getters.push(c.clone());
+            Some(format!("function() return {} end", a))
+        }
+        4 => {
+            closure_getters.push(c.clone());
+            Some(format!("function(v) if v then {} = v end return {} end", a, a))
+        }
+        5 => {
+            // re-declare the first name, reading the old one
+            second_names[0] = a.clone();
+            Some(format!("{}", a))
+        }
+        6 => Some(format!("{{{}, 1}}", a)),
+        _ => {
+            // re-declare without reading
+            second_names[0] = a.clone();
+            None
+        }
+    };
+    let second_values = values(rng, n2, lead, id);
+    out.push_str(&format!("local {}{}\n", second_names.join(", "), second_values));
+    // a third one now and then (chains of merges)
+    if rng.chance(1, 3) {
+        let lead3 = if rng.chance(1, 2) { Some(a.clone()) } else { None };
+        let third_values = values(rng, 1, lead3, id);
+        out.push_str(&format!("local e{}{}\n", id, third_values));
+        out.push_str(&format!("emit(e{})\n", id));
+    }
+    // observe
+    if closure_getters.is_empty() || relation != 4 {
+        out.push_str(&format!("{} = {}\n", a, 10 + rng.below(10)));
+    }
+    let mut shown: Vec<String> = Vec::new();
+    for n in first_names.iter().chain(second_names.iter()) {
+        if closure_getters.contains(n) {
+            shown.push(format!("type({n}) == 'function' and {n}()", n = n));
+            if relation == 4 {
+                shown.push(format!("type({n}) == 'function' and {n}(5)", n = n));
+            }
+        } else if relation == 6 && *n == second_names[0] {
+            shown.push(format!("type({n}) == 'table' and {n}[1]", n = n));
+        } else {
+            shown.push(n.clone());
+        }
+    }
+    out.push_str(&format!("emit({})", shown.join(", ")));
+    out
+}
+
 /// `focus`: restrict to snippets whose tag starts with one of these prefixes (empty = all)
 pub fn generate(rng: &mut Rng, luau: bool, focus: &[&str]) -> (String, Vec<&'static str>) {
     let pool: Vec<&Snippet> = SNIPPETS
@@ -166,7 +277,16 @@ pub fn generate(rng: &mut Rng, luau: bool, focus: &[&str]) -> (String, Vec<&'sta
     let mut tags = Vec::new();
     let mut next_id = 1 + rng.below(3);
     let mut k = 0;
+    let matrix_allowed = focus.is_empty() || focus.iter().any(|f| f.starts_with("gl"));
     while k < count {
+        if matrix_allowed && rng.chance(1, if focus.is_empty() { 5 } else { 2 }) {
+            k += 1;
+            let body = gl_matrix(rng, next_id);
+            next_id += 1;
+            tags.push("gl:matrix");
+            parts.push(if rng.chance(1, 3) { format!("do\n{}\nend", indent(&body)) } else { body });
+            continue;
+        }
         let sn = *rng.pick(&pool);
         // shapes outside the hypotheses: rare
         if (sn.tag == "f17-shape" || sn.tag == "receiver-reassigned") && !rng.chance(1, 6) {
